@@ -10,6 +10,8 @@ R2.3  no property is dropped on the way: _parse_properties assigns every key (tw
       takes properties and required from every member on every path, DataclassGenerator emits one field per property
 R2.4  required-ness: `is_required = prop_name in schema.required` is the only input of the default decision
 R2.6  registration: every normal exit of _parse_schema with a name passes the registration (enumerated exceptions)
+R2.7  the cycle tracker's enter/exit calls are balanced on every path of _parse_schema (a leaked depth turns later,
+      unrelated schemas into zero-field depth placeholders)                                   [typestate shared with C08]
 """
 from __future__ import annotations
 
@@ -45,6 +47,13 @@ def run(repo: Repo, rep: Report, tier: str) -> None:
                 rep.violation("R2.1", sub, f"{ps.fq}|discards-parsed|{v}",
                               f"after the schema has been fully parsed into `schema_ir` this path returns `{v}` instead: a cycle placeholder stored under the "
                               "schema's own name shadows the finished definition and the model ends up without fields (order- and name-dependent)", ps.loc(r.ast))
+
+    # ---------------------------------------------------------------- R2.7 tracker balance (precondition of field fidelity)
+    # A leaked enter raises recursion_depth for the rest of the document: once it passes the limit every later schema is
+    # replaced by a zero-field depth placeholder. The enter/exit typestate of C08 is therefore a necessary condition here.
+    from rules import c08
+
+    c08.typestate(ps, rep, rule="R2.7")
 
     # ---------------------------------------------------------------- R2.2 name content
     ucd = repo.module("core.parsing.unified_cycle_detection")
